@@ -325,7 +325,7 @@ fn judge(c: &Case, local: &mut Local, obs: &mut Obs) -> Verdict {
             }
         }
         let touched_names: Vec<String> = touched.iter().map(|k| c.ws.files[*k].name.clone()).collect();
-        cands.extend(hist::dump_candidates_touched("", &d0, &d1, Some(&touched_names)));
+        cands.extend(hist::dump_candidates_touched("", &d0, &d1, Some(&touched_names), Some(&c.ws.files)));
         // one candidate per index (the maps of one index grow together).  Growth that repeats when the
         // history is replayed a second time is a leak; growth that happens only once means the batch
         // analysis had left something unresolved that the re-analysis of a single file resolves.
